@@ -850,7 +850,11 @@ def matrix_inverse_pth_root(
   if matrix_size == 1:
     damped_matrix = matrix + ridge_epsilon
     resultant_mat_h = damped_matrix**alpha
-    error = jnp.array(0, jnp.float32)
+    # The closed form is exact unless it is not finite (zero or non-finite
+    # statistic with a zero ridge); report that as a failed root.
+    error = jnp.where(
+        jnp.all(jnp.isfinite(resultant_mat_h)), 0.0, jnp.inf
+    ).astype(jnp.float32)
     iters = 0
     error_ratio = 0.0
     total_retries = 0
